@@ -545,6 +545,77 @@ def check_dynamic(ctx, w, idx, u):
     return r
 
 
+FOREIGN_SRC = '''void out_l(long);
+_Bool gb(int); signed char gc(int); unsigned char guc(int); short gs(int); unsigned short gus(int);
+_Bool (*fpb[2])(int) = { gb, gb };
+int main(void)
+{
+	int n = 0;
+	if (gb(0)) n |= 1;
+	if (!gb(1)) n |= 2;
+	n += gb(0) && 1 ? 4 : 0;
+	n += gb(1) ? 8 : 0;
+	while (gb(0)) { n += 16; break; }
+	do n += 32; while (gb(0));
+	for (; fpb[1](0); ) { n += 64; break; }
+	out_l(n);
+	out_l(gc(0)); out_l(gc(0) < 0); out_l(guc(0)); out_l(guc(0) > 200); out_l(gs(0)); out_l(gs(0) == -2); out_l(gus(0)); out_l(gus(0) + 1L);
+	out_l((long)gc(0) * 2); out_l(gb(1) + gb(1)); out_l(gb(1) == 1); out_l(!gb(0) + (gb(0) || gb(1)));
+	switch (gc(0)) { case -1: out_l(77); break; default: out_l(78); }
+	return 0;
+}
+'''
+FOREIGN_IL = '''
+export function w $gb(w %a) {
+@start
+	%c =w ceqw %a, 0
+	jnz %c, @z, @o
+@z
+	ret 256
+@o
+	ret 32513
+}
+export function w $gc(w %a) {
+@start
+	ret 511
+}
+export function w $guc(w %a) {
+@start
+	ret 4294963401
+}
+export function w $gs(w %a) {
+@start
+	ret 524286
+}
+export function w $gus(w %a) {
+@start
+	ret 131071
+}
+'''
+FOREIGN_WANT = ['out_l 40', 'out_l -1', 'out_l 1', 'out_l 201', 'out_l 1', 'out_l -2', 'out_l 1', 'out_l 65535', 'out_l 65536', 'out_l -2', 'out_l 2', 'out_l 1',
+                'out_l 2', 'out_l 77']
+
+
+def foreign_narrow_results(ctx, w):
+    out = []
+    for target in ('x86_64-sysv', 'aarch64'):
+        rc, il, err = ctx.qbe(FOREIGN_SRC, target=target)
+        if rc != 0:
+            out.append(dict(what='%s: caller of foreign narrow-result functions rejected: %s' % (target, err[:200]), key='foreign-narrow-result',
+                            replay=dict(kind='foreign', src=FOREIGN_SRC, target=target)))
+            continue
+        f = os.path.join(ctx.tmp, 'foreign-%s.ssa' % target)
+        open(f, 'w').write(il + FOREIGN_IL)
+        rc, got, err = run_limited([w['qoracle'], 'run', f, '5000000'], timeout=120)
+        gl = [l for l in txt(got).split('\n') if l.startswith('out_')]
+        if gl != FOREIGN_WANT or 'status 0' not in txt(got):
+            k = next((i for i, (a, b) in enumerate(zip(gl, FOREIGN_WANT)) if a != b), min(len(gl), len(FOREIGN_WANT)))
+            out.append(dict(what='%s: a _Bool/char/short result of a callee that leaves the upper register bits undefined is used without extension: event %d is %r, expected %r (%s)'
+                                 % (target, k, gl[k] if k < len(gl) else None, FOREIGN_WANT[k] if k < len(FOREIGN_WANT) else None, txt(got)[-80:].replace('\n', ' ')),
+                            key='foreign-narrow-result', replay=dict(kind='foreign', src=FOREIGN_SRC, target=target)))
+    return out
+
+
 # ----------------------------------------------------------------------------- tables re-read from the snapshot
 def tables(ctx, snap, oracle):
     src = open(os.path.join(snap, 'qbe.c')).read()
@@ -850,6 +921,11 @@ def run(ctx):
                 report(ctx, v['what'], v['replay'], 'json', v['key'])
         if progs:
             samples.append(progs[0]['src'][:600])
+        # ---- results of callees built by ANOTHER compiler: only the bits of the declared return type are defined (x86-64 psABI,
+        #      AAPCS64: the callee does not extend), so cproc's caller must extend _Bool/char/short results before every use
+        for fv in foreign_narrow_results(ctx, w):
+            report(ctx, fv['what'], fv['replay'], 'json', fv['key'])
+        stats['directed'] += 2
         ctx.ob('K-dynamic:%d caller/callee programs (%d values) arrive intact under the IL interpreter = gcc trace' % (stats['dyn'], stats['dyn_events']),
                not any(v['key'] in ('dynamic-values', 'dynamic-reject') for v in ctx.violations))
     cov = dict(evaluations=stats['sigs'] + stats['calls'] + stats['types'] + stats['dyn_events'] + stats['directed'],
@@ -882,6 +958,12 @@ def replay(ctx, path):
     r = json.loads(text)
     print(r.get('src', ''))
     fail = 0
+    if r['kind'] == 'foreign':
+        w = dict(oracle=oracle, qoracle=qoracle)
+        res = foreign_narrow_results(ctx, w)
+        for v in res:
+            print(v['what'])
+        return 1 if res else 0
     if r['kind'] == 'layout':
         rc, il, err = ctx.qbe(r['src'], target=r['target'])
         types = [l for l in il.split('\n') if l.startswith('type ')]
